@@ -49,3 +49,49 @@ pub open spec fn top_toks(jo: JoinOutput, steps: Seq<Tok>) -> Seq<Tok> {
         bg(no_toks(), Delim::Brace, top_core(pre, rv, steps, handle))
     }
 }
+
+// ---- JoinOutput::new, the block that fills the fields (R15 block lifting) ----
+
+/// what the generator needs to know about one branch as the parser hands it over: every step the split produces has at
+/// least one action and is a step the parser can produce.  The depth clause of the latter is PROVED from the builder's
+/// contract (lemma_accepted_chain_never_underflows); its per-action clause is proved per `parse_stream` call but not
+/// carried through the builder's loop - that part stays an assumption at this boundary.
+pub open spec fn branch_steps_ok(ms: Seq<ExprGroup<ActionExpr>>) -> bool {
+    forall|s: int| 0 <= s < split_steps(ms, ms.len() as int).len() ==>
+        (#[trigger] split_steps(ms, ms.len() as int)[s]).len() > 0 && acts_ok_o(split_steps(ms, ms.len() as int)[s])
+}
+
+/// the fields as functions of the parsed branches
+pub open spec fn new_fields_ok_f<'a>(depths: Seq<usize>, chains: Seq<Vec<Vec<&'a ExprGroup<ActionExpr>>>>, pats: Seq<Option<&'a PatIdent>>, branches: Seq<ActionExprChain>, k: int) -> bool {
+    &&& depths.len() == k && chains.len() == k && pats.len() == k
+    &&& forall|b: int| 0 <= b < k ==> deep((#[trigger] chains[b])@) =~~= split_steps(branches[b].members@, branches[b].members@.len() as int)
+    &&& forall|b: int| 0 <= b < k ==> (#[trigger] depths[b]) == split_steps(branches[b].members@, branches[b].members@.len() as int).len()
+    &&& forall|b: int| 0 <= b < k ==> match branches[b].ident { Some(p) => (#[trigger] pats[b]) == Some(&p), None => pats[b] is None }
+}
+pub open spec fn new_fields_ok<'a>(jo: JoinOutput<'a>, branches: Seq<ActionExprChain>, k: int) -> bool {
+    new_fields_ok_f(jo.depths@, jo.chains@, jo.branch_pats@, branches, k)
+}
+
+pub proof fn lemma_new_fields<'a>(branch_count: usize, depths: Seq<usize>, chains: Seq<Vec<Vec<&'a ExprGroup<ActionExpr>>>>, pats: Seq<Option<&'a PatIdent>>, branches: Seq<ActionExprChain>)
+    requires
+        branch_count == branches.len(),
+        new_fields_ok_f(depths, chains, pats, branches, branches.len() as int),
+        forall|b: int| 0 <= b < branches.len() ==> branch_steps_ok((#[trigger] branches[b]).members@),
+    ensures
+        chains_wf_f(branch_count, depths, chains),
+        forall|b: int| 0 <= b < depths.len() ==> (#[trigger] depths[b]) >= 1,
+{
+    assert forall|b: int| 0 <= b < branch_count implies (#[trigger] chains[b])@.len() == depths[b] by {
+        assert(deep(chains[b]@).len() == chains[b]@.len());
+    }
+    assert forall|b: int, s: int| 0 <= b < branch_count && 0 <= s < depths[b] implies (#[trigger] chains[b]@[s])@.len() > 0 && acts_ok_o(chains[b]@[s]@) by {
+        let ms = branches[b].members@;
+        assert(branch_steps_ok(branches[b].members@));
+        assert(deep(chains[b]@)[s] == chains[b]@[s]@);
+        assert(deep(chains[b]@) =~~= split_steps(ms, ms.len() as int));
+        assert(split_steps(ms, ms.len() as int)[s].len() > 0);
+    }
+    assert forall|b: int| 0 <= b < depths.len() implies (#[trigger] depths[b]) >= 1 by {
+        lemma_split_nonempty(branches[b].members@, branches[b].members@.len() as int);
+    }
+}
